@@ -2,3 +2,4 @@ import QhttpGen.Range
 import QhttpGen.Ack
 import QhttpGen.Tables
 import QhttpGen.Copier
+import QhttpGen.Sock
